@@ -103,3 +103,8 @@ pub fn fwi(tpl: &Template, inputs: &[Vec<String>], seps: &[String]) -> Out {
         Ok(Ok(s)) => Out::Ok(s), Ok(Err(_)) => Out::Err, Err(()) => Out::Panic,
     }
 }
+
+/// format() keeping the error text (only ever compared between two runs of the real library)
+pub fn format_msg(tpl: &Template, x: &str) -> Result<Result<String, String>, ()> {
+    guarded(&|| format!("format {:?} on {x:?}", tpl.template_string()), || tpl.format(x))
+}
